@@ -47,3 +47,76 @@ Example C18_ex_clean_run :
   exists s, run (step c18_cfg) (init c18_cfg) c18_sched = Some s /\ census s = 0
             /\ census (init c18_cfg) = 7.
 Proof. eexists. split; [vm_compute; reflexivity|]. split; vm_compute; reflexivity. Qed.
+
+(* ====================================================================================================
+   C18 - composite leg (appended; model coq/model/Composite.v, proofs coq/proofs/CompositeCensus.v).
+   The goroutines the composite creates on its own behalf: one per child per boot (alive until
+   startRunnable has returned) and one per child per stopAllRunnables round (alive until that
+   child's Stop() has returned).  [CompositeMon.census] counts both; the harness compares it with the
+   real census (goroutines whose creator is a function of runnables/composite) at every quiescent
+   snapshot.  Code modelled: /repo f0fcb2b (fix_c09, fix_stale).  All schedules, any pool, any reload
+   / restart history, failed boots and failed reloads included.
+   ==================================================================================================== *)
+From Coq Require Import NArith.
+From GS Require Import Errs Composite CompositeMon CompositeBase CompositeC10 CompositeC09 CompositeLocks
+     CompositeProgress CompositeExact CompositeCensus.
+
+(* after a clean termination - Run() has returned, no Reload() is inside its critical section, and no
+   boot happened after the last completed stopAllRunnables (gen_cancelled = gen) - the census is 0 *)
+Theorem C18_comp_clean : forall P s,
+  fix_c09 P = true -> fix_stale P = true -> CompositeBase.reach P s ->
+  returned (runt s) = true -> reload_mu s = None -> gen_cancelled s = gen s ->
+  CompositeMon.census s = 0.
+Proof. exact census_zero_after_clean_termination. Qed.
+
+(* in every state in which Run() has returned - also when it returned without stopAllRunnables (the
+   transition to Running failed after a boot) or a Reload() raced with Stop() and booted afterwards -
+   each child goroutine still alive has an enabled step of its own (its context is cancelled): none is
+   left behind blocked *)
+Theorem C18_comp_no_blocked_leftover : forall P s i k,
+  good_children P -> CompositeBase.reach P s -> returned (runt s) = true ->
+  nth_error (kids s) i = Some k -> kid_alive k = true ->
+  exists l s', Composite.step P s l = Some s' /\
+    (l = LKRun i (k_child k) \/ l = LKExit i (k_child k) None \/ l = LKSend i).
+Proof. exact live_child_goroutine_can_step. Qed.
+
+(* no accumulation while running: the live child goroutines all belong to the current boot
+   generation - their number is bounded by the size of the configuration launched by the last boot,
+   however many reloads and restarts happened before ... *)
+Theorem C18_comp_children_bounded : forall P s,
+  fix_c09 P = true -> fix_stale P = true -> CompositeBase.reach P s ->
+  kid_census s <= length (cur_kids s).
+Proof. exact kid_census_bounded. Qed.
+
+(* ... and Stop-worker goroutines exist only inside a stopAllRunnables round in progress (rounds
+   are serialised by runnablesMu): whenever neither Run() nor a Reload() is waiting in
+   stopAllRunnables there is none *)
+Theorem C18_comp_workers_scoped : forall P s,
+  CompositeBase.reach P s -> runt s <> TStopWait ->
+  count_r (fun p => rpc_is p RStopWait) (reloaders s) = 0 -> worker_census s = 0.
+Proof. exact no_live_worker_outside_rounds. Qed.
+
+Print Assumptions C18_comp_clean.
+Print Assumptions C18_comp_no_blocked_leftover.
+Print Assumptions C18_comp_children_bounded.
+Print Assumptions C18_comp_workers_scoped.
+
+(* non-vacuity: boot, restart reload, Stop(): the census is 0 at the end and was 2 in between *)
+Definition c18_comp_params : params :=
+  mkParams [mkSpec 0%N UntilRunDone OnSignal RWC; mkSpec 1%N NonBlocking OnSignal RWC] true true true true.
+Definition c18_comp_sched : list Composite.label :=
+  [LRunCall; LRunBegin; LBootLock ORun; LCb ORun (CbSome [(0, 0)]%N); LBootLaunch ORun; LToRunning;
+   LKRun 0 0%N;
+   LReloadCall 0; LRlLock 0; LCb (ORel 0) (CbSome [(0, 1); (1, 1)]%N);
+   LStopBegin (ORel 0); LWCall 0 0%N; LKExit 0 0%N None; LWUnblock 0; LWRet 0 0%N;
+   LStopCancel (ORel 0); LStopJoin (ORel 0); LRlSetCfg 0; LBootLock (ORel 0); LBootLaunch (ORel 0);
+   LRlFinish 0; LRlRet 0; LKRun 1 0%N; LKRun 2 1%N;
+   LStopApi 0; LSSignal 0; LSelStop; LTransIf; LTearLock; LStopBegin ORun;
+   LWCall 1 1%N; LWCall 2 0%N; LWRet 1 1%N; LKExit 1 0%N None; LKExit 2 1%N (Some Canceled);
+   LWUnblock 2; LWRet 2 0%N; LStopCancel ORun; LStopJoin ORun; LToStopped; LRunExit; LRunRet None; LSRet 0].
+Example C18_comp_ex_clean_run : exists s s1,
+  LTS.run (Composite.step c18_comp_params) Composite.init c18_comp_sched = Some s /\
+  CompositeMon.census s = 0 /\ returned (runt s) = true /\ reload_mu s = None /\ gen_cancelled s = gen s /\
+  LTS.run (Composite.step c18_comp_params) Composite.init (firstn 24 c18_comp_sched) = Some s1 /\
+  CompositeMon.census s1 = 2.
+Proof. eexists. eexists. split; [vm_compute; reflexivity|]. vm_compute. repeat split. Qed.
